@@ -139,6 +139,9 @@ func runC07(rec *vk.Rec, ci int) {
 			ttl := 0
 			if r.Chance(40) {
 				ttl = r.Pick3(3600, 86400, 7200)
+				if r.Chance(35) { // the whole range a 32-bit ttl can hold (4294967295 is the marker of retained messages: left out)
+					ttl = []int{3601, 65535, 65536, 16777216, 2147483647, 2147483648, 3000000000, 4294967294}[r.Intn(8)]
+				}
 			}
 			payload := fmt.Sprintf("m%d", seq)
 			topic := keys[kp] + "/" + chanStr(lv)
